@@ -1,7 +1,7 @@
 (* Corollaries over every history, assembled from the component theories.
    properties/Cxx.v pin these statements; nothing here is specific to one property. *)
 From MST Require Import Base TreeM Diff Spec TreeSplit TreeUpsert TreeHash TreeInv TreeCanon TreeRanges
-  HistIndep HashInj Trav Iter Intervals DiffWalk DiffTrees TreeRL DiffTop DiffMore LevelSpec.
+  HistIndep HashInj Trav Iter Intervals DiffWalk DiffTrees TreeRL DiffTop DiffMore LevelSpec TreeNest.
 
 Section Top.
 Variable digest V : Type.
@@ -167,6 +167,35 @@ Proof.
     + intros E. exfalso. exact (shape_content_nonempty _ _ _ _ _ Hsh E).
     + intros _. destruct (ranges_page_spec digest V H lvl_of (root t') 256 Hsh Hac Hcc) as (l & El & F2).
       rewrite El. cbn [bind]. eauto.
+Qed.
+
+(* ---------------- C11: nesting and sibling clauses, for every page of every reachable (hashed) tree ---------------- *)
+Theorem C11_nesting ops t : run ops = Ok t ->
+  forall p, In p (subpages digest V (root (fst (mst_root_hash t)))) ->
+  (forall q f l fq lq, In q (children digest V p) ->
+     first_key V (content p) = Some f -> last_key V (content p) = Some l ->
+     first_key V (content q) = Some fq -> last_key V (content q) = Some lq ->
+     f <= fq /\ lq <= l /\ (f < fq \/ lq < l)) /\
+  (forall l1 c1 l2 c2 l3 e1 s2, children digest V p = l1 ++ c1 :: l2 ++ c2 :: l3 ->
+     last_key V (content c1) = Some e1 -> first_key V (content c2) = Some s2 -> e1 < s2).
+Proof.
+  intros R p Hp. destruct (run_Inv _ _ R) as (Hi & _).
+  pose proof (mst_root_hash_spec digest V H lvl_of t Hi) as HS.
+  destruct (mst_root_hash t) as [t' d]. destruct HS as (Hi' & _ & _ & Hac & _). cbn [fst] in *.
+  destruct Hi' as (Hso & Hcc & Hsh & _).
+  destruct Hsh as [(En & Eh & El)|Hsh].
+  - (* empty tree: the only page is the root and it has no children *)
+    rewrite subpages_eq, En, Eh in Hp. cbn in Hp. destruct Hp as [<-|[]].
+    assert (Ech: children digest V (root t') = []). { unfold children. rewrite En, Eh. reflexivity. }
+    split.
+    + intros q f l fq lq Hq. rewrite Ech in Hq. destruct Hq.
+    + intros l1 c1 l2 c2 l3 e1 s2 E. rewrite Ech in E. destruct l1; discriminate.
+  - destruct (subpage_facts digest V H lvl_of (root t') 256 p Hp Hsh Hac Hcc) as ((L' & Sp) & Ap & Cp & a & b & Ec).
+    assert (Sop: StronglySorted N.lt (keys (content p))).
+    { unfold Spec.sorted in Hso. rewrite Ec, !keys_app in Hso. apply SS_app in Hso as (_ & S2 & _). apply SS_app in S2 as (S3 & _). exact S3. }
+    split.
+    + intros q f l fq lq Hq. apply (subpage_span_inside digest V H lvl_of p L' q f l fq lq Sp Ap Cp Sop). apply children_sub. exact Hq.
+    + intros l1 c1 l2 c2 l3 e1 s2. apply (siblings_ascending digest V p l1 c1 l2 c2 l3 e1 s2 Sop).
 Qed.
 
 (* ---------------- C16 ---------------- *)
